@@ -1335,7 +1335,7 @@ func run(r *core.R) {
 	for i := 0; i < nWl; i++ {
 		w.workloads = append(w.workloads, fmt.Sprintf("cali%d", i))
 	}
-	w.pool, w.foreign, w.gws = cidrs(w.v6, r.Src.Range(2, 6, "cfg_pool"))
+	w.pool, w.foreign, w.gws = cidrs(w.v6, r.Src.Range(1, 4, "cfg_pool"))
 	// classes of this run: always local workload (the class everything else conflicts with) plus 1-5 more
 	w.classes = []classSpec{classTable[0]}
 	perm := r.Src.Perm(len(classTable)-1, "cfg_class_perm")
@@ -1364,7 +1364,7 @@ func run(r *core.R) {
 		for _, k := range faultKinds {
 			pOn := 450
 			if k == "route_replace_after_own_delete" {
-				pOn = 650
+				pOn = 850
 			}
 			if r.Src.Chance(pOn, "cfg_fault_on_"+k) {
 				w.rate[k] = r.Src.Range(20, 250, "cfg_fault_rate_"+k)
